@@ -4,6 +4,7 @@ import Tw.Proofs.Datafile
 import Tw.Proofs.DatafileWriter
 import Tw.Model.Map
 import Tw.Proofs.Map
+import Tw.Proofs.MapWriter
 import Tw.Gen.MapItems
 import Tw.Gen.Datafile
 
@@ -198,6 +199,41 @@ theorem file_open_never_panics (file : List UInt8) (start : Nat) (site : String)
     fileOpen file start ≠ .panic site := by
   rw [fileOpen_eq]; exact reader_new_never_panics _ site
 
+/-- **`debug_dump` is total** on every accepted file (debug logging enabled: `item_type` for
+every type, `item` for every item of every type range, `read_data` for every data block), for a
+zlib that honours its contract: the first `read_data` error or `Ok`, never a panic. -/
+theorem accepted_debug_dump (bytes : List UInt8) (r : Reader) (h : Reader.new bytes = .ok r)
+    (inflate : Nat → List UInt8 → Option (List UInt8))
+    (hz : ∀ n src out, inflate n src = some out → out.length ≤ n) (site : String) :
+    r.debugDump inflate ≠ .panic site := by
+  rcases new_spec bytes with ⟨e, he⟩ | ⟨r', hr, inv, _⟩
+  · rw [he] at h; cases h
+  · rw [hr] at h; cases h
+    exact debugDump_no_panic inv inflate hz site
+
+/-! ## Callbacks that fail (`raw::CallbackError`) -/
+
+/-- **I/O errors of the callbacks.**  If any of the callback calls of `Reader::new` (`read` ×5–6,
+`set_seek_base`, `ensure_filesize`; `fails k` = the k-th call returns `Err(CallbackError)`) fails,
+the result is `Error::Callback` or the format error that is detected before that call — never a
+panic, and never a different reader: `newCb` is `new` or the callback's error.  With callbacks
+that never fail it is `new`. -/
+theorem callback_errors_new (bytes : List UInt8) (fails : Nat → Bool) :
+    (Reader.newCb bytes fails = Reader.new bytes ∨ Reader.newCb bytes fails = .err .callback)
+      ∧ (∀ site, Reader.newCb bytes fails ≠ .panic site)
+      ∧ Reader.newCb bytes (fun _ => false) = Reader.new bytes :=
+  ⟨newCb_cases bytes fails, newCb_never_panics bytes fails, newCb_never bytes⟩
+
+/-- `read_data` with a failing `seek_read` or `alloc_data_buffer`: the callback's error or the
+result without failure; the reader (`&self`) is not modified, so a later call without failure
+returns what it would have returned (`readDataCb … false false = readData …`). -/
+theorem callback_errors_read_data (r : Reader) (inflate : Nat → List UInt8 → Option (List UInt8))
+    (index : Nat) (failSeek failAlloc : Bool) :
+    (r.readDataCb inflate index failSeek failAlloc = r.readData inflate index
+        ∨ r.readDataCb inflate index failSeek failAlloc = .err .callback)
+      ∧ r.readDataCb inflate index false false = r.readData inflate index :=
+  ⟨readDataCb_cases r inflate index failSeek failAlloc, readDataCb_never r inflate index⟩
+
 /-! ## Writer / reader round trip -/
 
 /-- **Round trip, both format versions.**  For versions 3 and 4, any well-formed item list and any
@@ -325,90 +361,30 @@ theorem tie_constants :
         = ["size", "swaplen", "num_item_types", "num_items", "num_data", "size_items", "size_data"] := by
   decide
 
-/-- Tie: every comparison (`if` condition, match guard, `assert!`) of the datafile reader's
-validation and accessor code, in source order, is the one the model was written against.  An
-edit of an operator (`<` ↔ `<=`, a dropped `!`, another limit) breaks this theorem even when no
-generated input distinguishes the two versions; `./check` then searches for a failing input. -/
-theorem tie_datafile_conditions :
-    Tw.Gen.Datafile.conds_raw_check
-      = ["!(0 <= t.type_id && t.type_id < format::ITEMTYPE_ID_RANGE)",
-        "!(t.type_id > previous_type_id)",
-        "t.start != expected_start",
-        "!(0 <= t.num && t.num <= self.header.hr.num_items - t.start)",
-        "t.type_id == t2.type_id",
-        "expected_start != self.header.hr.num_items",
-        "self.item_offsets[i] < 0",
-        "offset != self.item_offsets[i] as usize",
-        "offset > self.header.hr.size_items as usize",
-        "item_header.size < 0",
-        "item_header.size as usize % mem::size_of::<i32>() != 0",
-        "offset > self.header.hr.size_items as usize",
-        "offset != self.header.hr.size_items as usize",
-        "uds[i] < 0",
-        "offset < 0 || offset > self.header.hr.size_data",
-        "previous > offset",
-        "item_header.type_id() != t.type_id as u16"]
-    ∧ Tw.Gen.Datafile.conds_raw_data_size_file
-      = ["index < self.data_offsets.len() - 1"]
-    ∧ Tw.Gen.Datafile.conds_raw_item_type_indices
-      = ["t.type_id as u16 == type_id"]
-    ∧ Tw.Gen.Datafile.conds_raw_read_data
-      = ["len == data_len"]
-    ∧ Tw.Gen.Datafile.conds_HeaderVersion_check
-      = ["self.magic != MAGIC && self.magic != MAGIC_BIGENDIAN",
-        "self.version != VERSION3 && self.version != VERSION4"]
-    ∧ Tw.Gen.Datafile.conds_HeaderRest_check
-      = ["self.size < 0",
-        "self.swaplen < 0",
-        "self.num_item_types < 0",
-        "self.num_items < 0",
-        "self.num_data < 0",
-        "self.size_items < 0",
-        "self.size_data < 0",
-        "self.size_items as u32 % mem::size_of::<i32>() as u32 != 0"]
-    ∧ Tw.Gen.Datafile.conds_Header_read
-      = ["read < mem::size_of_val(&result.hv)",
-        "read < mem::size_of_val(&result)"]
-    ∧ Tw.Gen.Datafile.conds_Header_check_size_and_swaplen
-      = ["self.hr.size != expected_size0 && self.hr.size != expected_size1",
-        "self.hr.swaplen != expected_swaplen0 && self.hr.swaplen != expected_swaplen1"]
-    ∧ Tw.Gen.Datafile.conds_Header_calculate_size_field
-      = ["crude_version"]
-    ∧ Tw.Gen.Datafile.conds_Header_calculate_total_size
-      = ["self.hv.version >= 4"]
-    ∧ Tw.Gen.Datafile.conds_file_ensure_filesize
-      = ["actual.checked_sub(self_.datafile_start).unwrap() >= filesize.u64()"]
-    ∧ Tw.Gen.Datafile.file_seek_base_expr
-      = "so(datafile_start.checked_add(callback_data_new.seek_base.unwrap()))?" := by
+/-- Tie: the comparisons of the datafile reader's validation code (`Reader::check` and whatever
+helper it may be split into, the header checks of `format.rs`, `ensure_filesize` of `file.rs`) as a
+sorted multiset of *shapes* `[!]<left><op><right>` — an operand is kept only if it is an integer
+literal or an ALL_CAPS constant, `!` marks a comparison inside a negated group — and the fact that
+the seek base of `file.rs` includes `datafile_start`.  An operator flip (`<` ↔ `<=`), a dropped
+negation or another limit constant breaks this theorem even when no generated input separates
+the versions; renaming, local `let`s, closures (`find`/`position`) and private helper functions
+do not. -/
+theorem tie_datafile_comparisons :
+    Tw.Gen.Datafile.cmp_raw_validation
+      = ["!0<=_", "!0<=_", "!_<=_", "!_<ITEMTYPE_ID_RANGE", "!_>_", "_!=0", "_!=_", "_!=_", "_!=_", "_!=_", "_!=_", "_<0", "_<0", "_<0", "_<0", "_==_", "_>_", "_>_", "_>_", "_>_"]
+    ∧ Tw.Gen.Datafile.cmp_format_header
+      = ["_!=0", "_!=MAGIC", "_!=MAGIC_BIGENDIAN", "_!=VERSION3", "_!=VERSION4", "_!=_", "_!=_", "_!=_", "_!=_", "_!=_", "_<0", "_<0", "_<0", "_<0", "_<0", "_<0", "_<0", "_<_", "_<_", "_>=4"]
+    ∧ Tw.Gen.Datafile.cmp_file_ensure_filesize = ["_>=_"]
+    ∧ Tw.Gen.Datafile.file_seek_base_uses_start = true := by
   decide
 
-/-- Tie: the comparisons of the map layer (`from_slice_rest`, the extra race index, `get_index`,
-the `from_raw` range tests). -/
-theorem tie_map_conditions :
-    Tw.Gen.MapItems.conds_from_slice_rest
-      = ["!Self::ignore_version()",
-        "slice.len() == 0",
-        "slice[0] < Self::version()",
-        "slice.len() < Self::sum_len()"]
-    ∧ Tw.Gen.MapItems.conds_extra_from_slice
-      = ["slice.len() <= offset"]
-    ∧ Tw.Gen.MapItems.conds_get_index_impl
-      = ["!(index < indices.end)"]
-    ∧ Tw.Gen.MapItems.conds_get_index_opt
-      = ["index == -1"]
-    ∧ Tw.Gen.MapItems.conds_Group_from_raw
-      = ["layers_start > layer_indices.end",
-        "layers_end > layer_indices.end",
-        "v2.use_clipping != 0"]
-    ∧ Tw.Gen.MapItems.conds_LayerTilemap_from_raw
-      = ["v2.color_env == -1",
-        "!normal",
-        "width == 0",
-        "height == 0"]
-    ∧ Tw.Gen.MapItems.conds_Layer_from_raw
-      = ["flags & !format::LAYERFLAGS_ALL != 0"]
-    ∧ Tw.Gen.MapItems.conds_Image_from_raw
-      = ["v1.external != 0"] := by
+/-- Tie: comparison shapes of the map layer's validation code (`from_slice_rest`, the extra-race
+`from_slice`/`offset`, `get_index_impl`, `get_index_opt`, every `from_raw`). -/
+theorem tie_map_comparisons :
+    Tw.Gen.MapItems.cmp_map_format
+      = ["!_<=_", "!_<_", "_!=0", "_<=_", "_<_", "_<_", "_==0", "_==_"]
+    ∧ Tw.Gen.MapItems.cmp_map_reader
+      = ["!_<_", "_!=0", "_!=0", "_!=0", "_!=0", "_!=MAP_ITEMTYPE_LAYER_V1_DDRACE_SOUNDS", "_==-1", "_==-1", "_==0", "_==0", "_>_", "_>_"] := by
   decide
 
 /-- **`MapItemExt::from_slice_rest` is total** for every layout and every slice (the two slice
@@ -538,6 +514,69 @@ theorem settings_iter_terminates (s : List UInt8) (pos : Nat) (hpos : pos ≤ s.
 
 /-- non-vacuity: a settings block with two entries -/
 example : settingsAll [97, 0, 98, 99, 0] 6 0 = some (.ok [[97], [98, 99]]) := by rfl
+
+/-! ### Map round trip -/
+
+/-- **Map round trip.**  For every well-formed map `m` (`WMap.Ok`: ids fit 16 bits, every index of
+the info item, the images and the layers lies in the range the format demands, the groups' layer
+counts add up, every word fits an `i32`, file below 2 GiB) and every zlib pair with
+`inflate |x| (deflate x) = x`: the file `writeMap deflate m` (independent writer model: version,
+info, images, envelopes, groups, layers of all kinds, sounds, data) is accepted, and the map reader
+returns the map — version 1, the info item's indices, the group and image ranges, every image,
+every group with its layer range, every layer (tile layers of every kind with colour, colour
+envelope, image and data indices; quad layers; sound layers) and every data block. -/
+theorem map_roundtrip (deflate : List UInt8 → List UInt8)
+    (inflate : Nat → List UInt8 → Option (List UInt8)) (m : WMap) (ok : m.Ok deflate)
+    (hz : ∀ x ∈ m.datas, inflate x.length (deflate x) = some x) :
+    ∃ r, Reader.new (writeMap deflate m) = .ok r
+      ∧ version r = .ok 1 ∧ checkVersion r = .ok ()
+      ∧ info r = .ok { author := m.info.author, version := m.info.version, credits := m.info.credits,
+                       license := m.info.license, settings := m.info.settings }
+      ∧ typeRange r MAP_ITEMTYPE_GROUP = .ok (grpRange m)
+      ∧ typeRange r MAP_ITEMTYPE_IMAGE = .ok (imgRange m)
+      ∧ (∀ i (hi : i < m.images.length), image r (2 + i)
+            = .ok { width := m.images[i].width, height := m.images[i].height, name := m.images[i].name,
+                    data := m.images[i].data })
+      ∧ (∀ i (hi : i < m.groups.length), group r (gBase m + i)
+            = .ok { offsetX := m.groups[i].offsetX, offsetY := m.groups[i].offsetY,
+                    parallaxX := m.groups[i].parallaxX, parallaxY := m.groups[i].parallaxY,
+                    layersStart := (layRange m).1 + startOf m.groups i,
+                    layersEnd := (layRange m).1 + startOf m.groups i + m.groups[i].numLayers,
+                    clipping := m.groups[i].clipping, name := nameGet (nameW m.groups[i].name) })
+      ∧ (∀ i (hi : i < m.layers.length), layer r (lBase m + i)
+            = .ok (m.layers[i].read (envRange m).1 (imgRange m).1 (sndRange m).1))
+      ∧ (∀ d (hd : d < m.datas.length), Tw.Map.readData r inflate d = .ok m.datas[d]) :=
+  map_roundtrip_reader deflate inflate m ok hz
+
+/-- **Strings and settings come back as stored.**  A data block `s ++ [0]` without inner NUL is
+returned by `string` as `s`; a settings block that is the concatenation of NUL-terminated entries
+is iterated by `SettingsIter` into exactly those entries. -/
+theorem map_strings_settings_roundtrip (r : Reader) (z : Zlib) (d : Nat) :
+    (∀ s : List UInt8, Tw.Map.readData r z d = .ok (s ++ [0]) → (∀ b ∈ s, b ≠ 0) →
+        Tw.Map.string r z d = .ok s)
+      ∧ ∀ ss : List (List UInt8), (∀ s ∈ ss, ∀ b ∈ s, b ≠ 0) →
+          settingsAll ((ss.map (· ++ [0])).flatten) (ss.length + 1) 0 = some (.ok ss) := by
+  refine ⟨fun s h hs => string_of_data h hs, fun ss hss => ?_⟩
+  have := settingsAll_join ss hss [] (ss.length + 1) (Nat.le_refl _)
+  simpa using this
+
+/-- non-vacuity: a sample map with two groups, four layers (game, normal with colour envelope,
+quads, teleport), two images and an envelope satisfies `WMap.Ok` -/
+example : (sampleMap 1).Ok id := by
+  refine ⟨by decide, by decide, by decide, ?_, ?_, ?_, by decide +kernel, by decide⟩
+  · intro i hi
+    have : i = 0 ∨ i = 1 := by simp [sampleMap] at hi; omega
+    rcases this with rfl | rfl <;> simp [sampleMap, startOf, sampleTile]
+  · intro l hl
+    simp [sampleMap, sampleTile] at hl
+    rcases hl with rfl | rfl | rfl | rfl <;>
+      simp [WLayer.Ok, envRange, imgRange, sndRange, rangeOf, sampleMap, eBase, sBase, sampleTile] <;>
+      constructor <;> simp [WTileKind.extraData]
+  · intro it hit w hw
+    simp [mapItems, sampleMap, sampleTile, enumFrom, groupStarts, versionItem, infoItem, imageItem, envelopeItem,
+      groupItem, layerItem, layerRest, layerType, nameW, optIdx, zname, aname, WTileKind.flags, WTileKind.extra] at hit
+    rcases hit with rfl | rfl | rfl | rfl | rfl | rfl | rfl | rfl | rfl | rfl | rfl <;>
+      (simp [MAP_ITEMTYPE_LAYER_V1_TILEMAP, MAP_ITEMTYPE_LAYER_V1_QUADS, TILELAYERFLAG_GAME, TILELAYERFLAG_TELEPORT] at hw; unfold InI32; omega)
 
 end Map
 
